@@ -2,7 +2,6 @@ package lint
 
 import (
 	"fmt"
-	"os"
 	"strings"
 
 	"golang.org/x/tools/go/ssa"
@@ -277,10 +276,6 @@ func (p *Program) reach(starts []Loc, target InstrPred, cut CutSpec, sensitive b
 
 					e.AnyOf = append(e.AnyOf, grp)
 					e.AnyOfFacts = append(e.AnyOfFacts, gf)
-				}
-
-				if os.Getenv("COSILINT_DEBUG") == "anyof" && len(e.AnyOfFacts) > 0 {
-					fmt.Fprintf(os.Stderr, "anyof %s taken=%v: %v\n", facts[0], taken, e.AnyOfFacts)
 				}
 
 				if cut.Edges != nil && cut.Edges(e) {
